@@ -22,6 +22,8 @@ REPO = "/repo"
 # seeds that this script cannot show as caught, and why (see DESIGN 9.4)
 EXPECTED_NOT_CAUGHT = {
     "c17-s13": "out of reach: needs schemas nested > 100 levels (recorded as a limit)",
+    "c07-s28": "out of reach: needs values nested ~1000 levels and an outcome that depends on the recursion limit (recorded as a limit)",
+    "c17-s27": "out of reach: a helper (rollout) plus user code around it that the sequences do not use (recorded as a limit)",
     "c09-s9": "the patch only applies to its old base commit, where the unrepaired tree (before 08c3f04) already shows the same signature",
     "c09-s15": "the patch only applies to its old base commit, where the unrepaired tree (before 2616327) already shows the same signature",
 }
